@@ -65,9 +65,19 @@ fn corrupt_structured(r: &Replay, rng: &mut Rng, kind: u64) -> (Vec<u8>, String)
             for bi in 0..nb { let mut ev = vec![0x10u8]; let mut data = rng.bytes(512); if bi == 0 && matches!(code, 0x37 | 0x38 | 0x3B) { let id = id_at(&body, i, &r); data[..4].copy_from_slice(&id.to_be_bytes()); data[4] = 0; data[5] = 0; }
                 ev.extend(data); let actual: u16 = if bi + 1 == nb { [300u16, 512, 257, 1][(rng.next() % 4) as usize] } else { 512 }; ev.extend(actual.to_be_bytes()); ev.push(code); ev.push((bi + 1 == nb) as u8); blocks.push(ev); }
             body.splice(i..i, blocks); "second-split-message" }
+        18 => "rawlen-vs-stream",
+        19 => { // an event code listed twice in the payload-size table: same size, or another one (the later entry is the one in force)
+            let i = pick(rng, sizes.len()); let mut e = sizes[i]; if rng.next() % 2 == 0 { e.1 = e.1.wrapping_add([1u16, 3, 0xffff][(rng.next() % 3) as usize]); }
+            let at = pick(rng, sizes.len() + 1).max(1); sizes.insert(at, e); "duplicate-table-entry" }
         _ => { if let Some(f) = r.frames.first_mut() { f.id = [i32::MAX, i32::MIN, -124, 0][(rng.next() % 4) as usize]; } body = body_events(&r, &pad); "extreme-first-id" }
     };
     let mut out = assemble(&r, &sizes, &body, &junk, &pad);
+    // the declared raw length promises more than the stream holds: d more bytes (one more Game End of the version's size among them), the stream ending
+    // right behind the real raw element, a byte or two later, or going on with what was there
+    if kind == 18 && out.len() >= 15 { let actual = u32::from_be_bytes([out[11], out[12], out[13], out[14]]) as usize; let endlen = r.end.as_ref().map_or(2, |e| e.len());
+        let d = if rng.next() % 2 == 0 { 1 + endlen } else { [1usize, 2, 3, 7, 4, 8, 100, 65536][(rng.next() % 8) as usize] }; out[11..15].copy_from_slice(&((actual + d) as u32).to_be_bytes());
+        let cut = match rng.next() % 4 { 0 | 1 => 15 + actual, 2 => 15 + actual + 1 + (rng.next() % 2) as usize, _ => out.len() }; out.truncate(cut.min(out.len()));
+        return (out, format!("{}:+{}", name, d)); }
     // the length byte of the payload-size table itself
     if rng.next() % 12 == 0 && out.len() > 17 { let cur = out[16]; out[16] = [0u8, 1, 2, 3, 4, 255, cur.wrapping_add(1), cur.wrapping_sub(1), cur.wrapping_add(3)][(rng.next() % 9) as usize]; return (out, format!("{}+tablelen", name)); }
     // header / raw_len edits
@@ -105,7 +115,7 @@ fn mal(rng: &mut Rng, ctx: &mut Ctx) {
     let go = GenOpts { max_frames: 5, newer: false, force: None };
     for k in 0..ctx.n {
         // structured corruptions walk the 18 kinds; events illegal for the version get every framing regime in turn
-        let kind = if k % 4 == 1 { 6 } else if k % 8 == 3 { 16 } else if k % 16 == 7 { 17 } else { rng.next() % 18 };
+        let kind = if k % 4 == 1 { 6 } else if k % 8 == 3 { 16 } else if k % 16 == 7 { 17 } else if k % 16 == 15 || k % 16 == 11 { 18 } else if k % 32 == 10 { 19 } else { rng.next() % 20 };
         let go = if kind == 6 { GenOpts { max_frames: 4, newer: false, force: Some([(1u8,0u8,0u8),(2,1,0),(2,2,0),(2,255,3),(3,0,0),(3,6,0),(0,1,0),(2,5,0)][(k / 4) % 8]) } } else { GenOpts { max_frames: 5, newer: false, force: None } };
         let (r, tags) = gen_replay(rng, k, &go);
         let (b, kind) = if k % 3 == 0 && kind != 6 { let b = encode(&r); corrupt_bytes(&b, rng) } else { corrupt_structured(&r, rng, kind) };
@@ -238,6 +248,13 @@ fn irr(rng: &mut Rng, ctx: &mut Ctx) {
     for k in 0..ctx.n {
         let (mut r, mut tags) = gen_replay(rng, k, &go);
         let pad = Pad::default();
+        // blocks at the edge of what a 16-bit table entry can say: a Gecko list of 65 535 bytes (128 blocks), a Game Start or a Game End block of
+        // 65 535 / 65 534 bytes (longer than any layout: the extra bytes are kept and written back)
+        if k % 16 == 6 { let big = if (k / 48) % 2 == 0 { 65535usize } else { 65534 };
+            match (k / 16) % 3 { 0 if r.v >= (3, 3, 0) => { r.gecko = Some((rng.bytes(65536), big as u32)); } /* (a Gecko list belongs to 3.3+: the writer declares its events only there) */
+                1 => { r.start_block.resize(big, 0); }
+                _ => { if r.end.is_some() && !r.double_end { r.end.as_mut().unwrap().resize(big, 0xff); } else { r.start_block.resize(big, 0); } } }
+            tags.push(format!("edge-block:{}:{}", (k / 16) % 3, big)); }
         let base = encode(&r);
         let (bl, bg) = read_line(&base, false, false);
         let what = (k + k / 6) % 6; // (drifts against the container shapes, which repeat every 12 cases)  0 unknown, 1 junk, 2 permute, 3 unknown+permute, 4 all, 5 a frame event carried by Message Splitter blocks
@@ -409,6 +426,20 @@ fn maxver(rng: &mut Rng, ctx: &mut Ctx) {
                 let pw = std::panic::catch_unwind(std::panic::AssertUnwindSafe(|| { let mut buf = vec![]; peppi::io::peppi::write(&mut buf, g, None).map_err(|e| e.to_string()) }));
                 match pw { Err(_) => c.fail("C09", format!(".slpp writer panicked for version {:?}", v)), Ok(Ok(())) => if exp_refuse { c.fail("C09", format!(".slpp writer accepted version {:?} > 3.16.0", v)); }, Ok(Err(e)) => if !exp_refuse { c.fail("C09", format!(".slpp writer refused version {:?} <= 3.16.0: {}", v, e)); } } } }
         ctx.push(c);
+        // ... and not on the sizes of the blocks: a Game Start / Game End block longer than the version's layout (a recorder that appends fields without
+        // raising the version; larger payloads are tolerated on reading) is written or refused by the version like any other
+        if k % 3 == 1 { let mut r2 = r.clone(); let grow = [4usize, 40, 300, 1][(k / 3) % 4]; if (k / 3) % 2 == 0 || r2.end.is_none() { let n = r2.start_block.len().max(760) + grow; r2.start_block.resize(n, 0); } // (fields are located by block length: a block that ends inside a later layout's field is rejected, one that goes beyond the last layout is not)
+            if let Some(e) = r2.end.as_mut() { if (k / 3) % 3 != 0 { let n = e.len().max(6) + 1 + (k / 9) % 3; e.resize(n, 0xff); } }
+            let b2 = encode(&r2);
+            let mut c = Case::new(format!("skipcase maxver-long-blocks {:?}", v), String::new()); c.tags = vec![format!("long-blocks refuse{}", exp_refuse as u8)];
+            match read_line(&b2, false, false) { (l, None) => { c.impl_out = format!("unreadable: {}", &l[..l.len().min(80)]); }
+                (_, Some(g)) => { let g = g;
+                    let sw = std::panic::catch_unwind(std::panic::AssertUnwindSafe(|| { let mut buf = vec![]; slippi::write(&mut buf, &g).is_ok() }));
+                    let pw = std::panic::catch_unwind(std::panic::AssertUnwindSafe(|| { let mut buf = vec![]; peppi::io::peppi::write(&mut buf, g, None).is_ok() }));
+                    c.impl_out = format!("{:?} {:?}", sw.as_ref().ok(), pw.as_ref().ok());
+                    for (name, res) in [(".slp", &sw), (".slpp", &pw)] { match res { Err(_) => c.fail("C09", format!("{} writer panics on a game of version {:?} with blocks longer than the version's layout", name, v)),
+                        Ok(acc) => if *acc == exp_refuse { c.fail("C09", format!("{} writer {} version {:?} (Game Start of {} bytes, Game End of {:?})", name, if *acc { "accepted" } else { "refused" }, v, r2.start_block.len(), r2.end.as_ref().map(|e| e.len()))); } } } } }
+            ctx.push(c); }
         // the verdict depends on the version alone: the same game with other metadata in memory (none, an empty map, no `startAt`, `startAt` of
         // another type, nested maps only) is refused / accepted all the same, without a panic
         if k % 2 == 1 { if let (Some(g0), Some(g0b)) = (read_line(&b, false, false).1, read_line(&b, false, false).1) { let shape = (k / 2 + k / 10) % 5;
@@ -564,6 +595,11 @@ fn inc(rng: &mut Rng, ctx: &mut Ctx) {
         // Gecko list: the event-level API skips it and counts exactly the bytes it consumed
         let b = if k % 5 == 3 { let pad = Pad::default(); let sz = [65535u16, 1, 300, 65534][(k / 5) % 4]; r.extra_payloads.push((0x7E, sz)); let mut body = body_events(&r, &pad); let ng = gecko_events(&r).len().min(body.len());
                 let at = ng + (rng.next() as usize) % (body.len() - ng + 1); let mut e = vec![0x7Eu8]; e.extend(rng.bytes(sz as usize)); body.insert(at, e); tags.push(format!("inc-unknown:{}", sz)); assemble(&r, &table(&r, &pad), &body, &[], &pad) }
+            // one game in seven lists an event code twice in the payload-size table (a recorder that appends an entry it already wrote): the later
+            // entry is the one in force; the table is as many bytes longer and is counted as such
+            else if k % 7 == 4 { let pad = Pad::default(); let mut sizes = table(&r, &pad); let i = 1 + (rng.next() as usize) % (sizes.len() - 1).max(1); let i = i.min(sizes.len() - 1); let e = sizes[i];
+                match (k / 7) % 3 { 0 => sizes.insert(i, (e.0, e.1.wrapping_add(5))), 1 => sizes.push(e), _ => { sizes.insert(1, (e.0, 1)); sizes.push(e); } }
+                tags.push(format!("dup-table-entry:{}", (k / 7) % 3)); assemble(&r, &sizes, &body_events(&r, &Pad::default()), &[], &pad) }
             else { encode(&r) };
         let (plan, pname) = plans(rng, b.len(), k);
         let (fl, fg) = read_line(&b, false, false);
@@ -751,6 +787,10 @@ fn tar_entries(a: &[u8]) -> Vec<(String, Vec<u8>)> { let mut out = vec![]; for e
 /// names `DIR:<path>` make a directory member (what `tar cf x -C dir .` emits first), `RAW:<hex>` puts the bytes into the name field as they are (a name that is not UTF-8)
 fn tar_build(es: &[(String, Vec<u8>)]) -> Vec<u8> { let mut b = tar::Builder::new(vec![]); for (n, c) in es { let mut h = tar::Header::new_gnu();
         if let Some(d) = n.strip_prefix("DIR:") { h.set_entry_type(tar::EntryType::Directory); h.set_size(0); h.set_path(d).unwrap(); h.set_mode(0o755); h.set_cksum(); b.append(&h, &[][..]).unwrap(); continue; }
+        // what `tar --format=posix` / bsdtar / Python's tarfile put in front of a member: a pax extended header (typeflag `x`, named PaxHeaders/<member>)
+        // whose records (times here) belong to the member that follows; `GPAX:` is the global variant (typeflag `g`)
+        if let Some(m) = n.strip_prefix("PAX:") { let body = b"30 mtime=1700000000.123456789\n"; h.set_entry_type(tar::EntryType::XHeader); h.set_size(body.len() as u64); h.set_path(format!("PaxHeaders/{}", m)).unwrap(); h.set_mode(0o644); h.set_cksum(); b.append(&h, &body[..]).unwrap(); continue; }
+        if n.starts_with("GPAX:") { let body = b"52 comment=0123456789abcdef0123456789abcdef01234567\n"; h.set_entry_type(tar::EntryType::XGlobalHeader); h.set_size(body.len() as u64); h.set_path("pax_global_header").unwrap(); h.set_mode(0o644); h.set_cksum(); b.append(&h, &body[..]).unwrap(); continue; }
         h.set_size(c.len() as u64);
         if let Some(x) = n.strip_prefix("RAW:") { let raw: Vec<u8> = (0..x.len() / 2).map(|i| u8::from_str_radix(&x[2 * i..2 * i + 2], 16).unwrap()).collect(); let name = &mut h.as_old_mut().name; for (i, v) in raw.iter().enumerate().take(99) { name[i] = *v; } } else { h.set_path(n).unwrap(); }
         h.set_mode(0o644); h.set_cksum(); b.append(&h, &c[..]).unwrap(); } b.into_inner().unwrap() }
@@ -850,6 +890,11 @@ fn pread(rng: &mut Rng, ctx: &mut Ctx) {
             for _ in 0..1 + rng.next() % 3 { let i = 1 + (rng.next() as usize) % lim.max(1).min(es2.len()); let i = i.min(es2.iter().position(|e| e.0 == "frames.arrow").unwrap_or(es2.len())); es2.insert(i, (["notes.txt", "extra.json", "thumb.png", "start.raw.bak", "frames.arrow.old", "DIR:./", "DIR:extras/", "extras/thumbnail.png", "RAW:72e973756de92e747874", "RAW:ff", "a/b/c/start.raw.d/x"][(rng.next() % 11) as usize].to_string(), rng.nbytes(700))); }
             // a big foreign member (a thumbnail, a video clip) once per run: sizes around 1 MiB
             if k == 2 { let big = [(1usize << 20) + 1, 3 << 20, 1 << 20][(ctx.seed as usize) % 3]; es2.insert(1, ("preview.bin".to_string(), vec![0x5au8; big])); }
+            // an archive re-packed by a tool that writes the pax format: an extended header in front of one member, or of every member after the first
+            // (and a global header); they describe the member that follows and are no members of their own
+            match (k / 2) % 3 { 1 => { let j = 1 + (rng.next() as usize) % (es2.len() - 1).max(1); let j = j.min(es2.len() - 1); let nm = es2[j].0.clone(); if !nm.contains(':') { es2.insert(j, (format!("PAX:{}", nm), vec![])); c.tags.push("pax-one".into()); } }
+                2 => { let mut out = vec![es2[0].clone(), ("GPAX:".to_string(), vec![])]; for e in es2[1..].iter() { if !e.0.contains(':') { out.push((format!("PAX:{}", e.0), vec![])); } out.push(e.clone()); } es2 = out; c.tags.push("pax-all".into()); }
+                _ => {} }
             let a2 = tar_build(&es2);
             let res = std::panic::catch_unwind(|| peppi::io::peppi::read(Cursor::new(&a2), None).map(|g| game_sig(&g)).map_err(|e| e.to_string()));
             match res { Ok(Ok(s)) => { c.impl_out = "ok same".into(); if s != full { c.impl_out = "ok different".into(); c.fail("C18", "unknown archive entries change the game that is read"); } } Ok(Err(e)) => { c.impl_out = format!("err {}", e); c.fail("C18", format!("archive with unknown entries rejected: {}", e)); } Err(_) => { c.impl_out = "panic".into(); c.fail("C18", "reader panicked on unknown archive entries"); } }
